@@ -49,6 +49,11 @@ def configs(tier, seed):
         for mode in MODES:
             out.append(dict(kind='tuple4', wc=wc, wr=wr, mode=mode, J=1, H=8, W=6, dir='inv', B=1, C=1, mask=[1]))
         out.append(dict(kind='tuple4', wc=wc, wr=wr, mode='periodization', J=2, H=16, W=24, dir='inv', B=1, C=1, mask=[1, 0]))
+    # the two axes share the lowpass filter but not the highpass filter
+    for mode in MODES:
+        for d in ('fwd', 'inv'):
+            out.append(dict(kind='tuple4', wc='db2', wr='neg:db2', mode=mode, J=2, H=9, W=10, dir=d, B=1, C=1))
+            out.append(dict(kind='tuple4', wc='neg:bior2.2', wr='bior2.2', mode=mode, J=1, H=8, W=7, dir=d, B=1, C=2))
     # the same calls under torch.no_grad(), on inputs that require grad, on transposed / channels-last storage
     for ctx in D.CTXS:
         for mode in ('zero', 'reflect', 'periodization'):
@@ -67,8 +72,16 @@ def configs(tier, seed):
     return out
 
 
+def _wv(name):
+    """'neg:<name>': the same lowpass filters, highpass filters negated (a different bank sharing the lowpass)"""
+    if name.startswith('neg:'):
+        w = pywt.Wavelet(name[4:])
+        return pywt.Wavelet(name, filter_bank=[list(w.dec_lo), [-v for v in w.dec_hi], list(w.rec_lo), [-v for v in w.rec_hi]])
+    return pywt.Wavelet(name)
+
+
 def _filts(cfg, d):
-    wc = pywt.Wavelet(cfg['wc']); wr = pywt.Wavelet(cfg['wr'])
+    wc = _wv(cfg['wc']); wr = _wv(cfg['wr'])
     if d == 'fwd':
         f = [wc.dec_lo, wc.dec_hi, wr.dec_lo, wr.dec_hi]
     else:
@@ -78,13 +91,13 @@ def _filts(cfg, d):
 
 
 def _pyr_shapes(cfg):
-    c = pywt.wavedec2(np.zeros((cfg['H'], cfg['W'])), (pywt.Wavelet(cfg['wc']), pywt.Wavelet(cfg['wr'])), mode=cfg['mode'], level=cfg['J'])
+    c = pywt.wavedec2(np.zeros((cfg['H'], cfg['W'])), (_wv(cfg['wc']), _wv(cfg['wr'])), mode=cfg['mode'], level=cfg['J'])
     return c[0].shape, [(3,) + b[0].shape for b in c[1:][::-1]]
 
 
 def _case(cfg):
     B, C = cfg['B'], cfg['C']
-    pair = (pywt.Wavelet(cfg['wc']), pywt.Wavelet(cfg['wr']))
+    pair = (_wv(cfg['wc']), _wv(cfg['wr']))
     if cfg['dir'] == 'fwd':
         in_specs = [('x', (B, C, cfg['H'], cfg['W']))]
 
@@ -114,10 +127,10 @@ def _case(cfg):
 
 
 def _facts(cfg):
-    L = max(pywt.Wavelet(cfg['wc']).dec_len, pywt.Wavelet(cfg['wr']).dec_len) if cfg['kind'] != 'symtaps' else max(cfg['Lc'], cfg['Lr'])
+    L = max(_wv(cfg['wc']).dec_len, _wv(cfg['wr']).dec_len) if cfg['kind'] != 'symtaps' else max(cfg['Lc'], cfg['Lr'])
     ps = False
     if cfg['kind'] != 'symtaps' and cfg['mode'] == 'periodization':
-        ps = D.per_short(cfg['H'], pywt.Wavelet(cfg['wc']).dec_len, cfg['J']) or D.per_short(cfg['W'], pywt.Wavelet(cfg['wr']).dec_len, cfg['J'])
+        ps = D.per_short(cfg['H'], _wv(cfg['wc']).dec_len, cfg['J']) or D.per_short(cfg['W'], _wv(cfg['wr']).dec_len, cfg['J'])
     return dict(kind=cfg['kind'], dir=cfg['dir'], mode=cfg['mode'], per_short=bool(ps))
 
 
